@@ -207,6 +207,7 @@ class Path:
         self.end = None      # 'return' | 'exit' | 'throw' | 'cut' | 'noreturn'
         self.choices = ()
         self.blocks = []
+        self.word_syms = set()
 
     def cond_map(self):
         return {c[0]: c[1] for c in self.conds}
@@ -239,6 +240,8 @@ class Sim:
         self.writes = []           # log of written paths (for loop widening)
         self.spin_fail = []        # events of lambda iterations that do not exit the spin
         self.depth = 0
+        self.word_results = set()  # symbols produced by atomic reads
+        self.word_paths = set()    # locations that have held such a symbol
 
     # ------------------------------------------------------------ choices
     def choose(self, n, tag):
@@ -268,6 +271,7 @@ class Sim:
         return v
 
     def write(self, p, v, line=None, record_event=True):
+        self.note_word(p, v)
         self.store[p] = v
         self.writes.append(p)
         if record_event and p[0] != 'var':
@@ -275,7 +279,15 @@ class Sim:
         elif record_event:
             self.event({'kind': 'assign_local', 'path': p, 'value': v, 'line': line})
 
+    def note_word(self, p, v):
+        if isinstance(v, tuple) and v and v[0] == 's' and v in self.word_results:
+            self.word_paths.add(p)
+
     def event(self, e):
+        if e.get('kind') == 'atomic':
+            for k in ('result', 'observed'):
+                if e.get(k) is not None:
+                    self.word_results.add(e[k])
         e.setdefault('fn', self.cur_fn['key'])
         e['seq'] = len(self.path.events)
         e['depth'] = self.depth
@@ -499,7 +511,10 @@ class Sim:
         return ('app', 'cast:' + ck, (self.rv(e),))
 
     def ev_initlist(self, n):
-        return ('initlist', tuple(self.rv(self.ev(i)) for i in n['items']))
+        items = tuple(self.rv(self.ev(i)) for i in n['items'])
+        if n.get('scalar'):
+            return items[0] if items else C(0)
+        return ('initlist', items)
 
     def ev_lambda(self, n):
         return ('lambda', n['fn'])
@@ -538,6 +553,7 @@ class Sim:
                     val = self.addr_of(self.lv_path(x))
                 else:
                     val = self.rv(x)
+                self.note_word(p, val)
                 self.store[p] = val
                 self.writes.append(p)
         return None
@@ -723,6 +739,8 @@ class Sim:
             if not ok:
                 nv = self.new_sym('casfail@%d' % line)
                 base['observed'] = nv
+                self.word_results.add(nv)
+                self.word_paths.add(epath)
                 self.store[epath] = nv
                 self.writes.append(epath)
                 return FALSE
@@ -812,7 +830,12 @@ class Sim:
                     if p[0] == 'objver':
                         continue
                     old = self.store.get(p)
-                    self.store[p] = self.new_sym(show(p) + '~', bits_of(old) if old is not None else 64)
+                    self.note_word(p, old)
+                    nv = self.new_sym(show(p) + '~', bits_of(old) if old is not None else 64)
+                    self.store[p] = nv
+                    if p in self.word_paths:
+                        self.word_results.add(nv)
+                        self.path.word_syms.add(nv)
             else:
                 raise Cut()
             for e in b['elems']:
@@ -990,6 +1013,11 @@ class Engine:
                     # remaining arguments must be exactly the remaining parameters, in order
                     rest = n['args'][1:]
                     want = [q['did'] for q in fn['params'][1:]]
+                    def unwrap(a):
+                        while a.get('k') == 'cast':
+                            a = a['e']
+                        return a
+                    rest = [unwrap(a) for a in rest]
                     got = [a.get('did') for a in rest if a.get('k') == 'var']
                     if got != want or len(rest) != len(want):
                         return False, 'first parameter called with other arguments than the remaining parameters'
